@@ -970,10 +970,6 @@ Proof.
   - intros Hpc. apply orb_true_iff. apply (li_acked _ _ HL). rewrite Hpc. reflexivity.
 Qed.
 
-Lemma c26_functions : forall r,
-  retryable r = is_engine_closed r /\ retryable_tg r = is_engine_closed r.
-Proof. intros r; split; destruct r; reflexivity. Qed.
-
 Lemma c26_drop : forall mx s c r, 1 <= mx -> reach mx s -> pc (calls s c) = PReturned r ->
   ndrops (calls s c) = match r with RCtx => if sent (calls s c) then 1 else 0 | _ => 0 end.
 Proof.
